@@ -290,6 +290,17 @@ Theorem C10_range1_inner_element_omitted_refuted :
   h_range2 w_t (bk 4 1) kvs (Some (h_range_proof2 w_t (bk 4 1) (bk 4 9))) = RErr.
 Proof. vm_compute. repeat split; reflexivity. Qed.
 
+(* trie2: a boundary leaf that hangs directly under a binary node is not cut by unset. Trie
+   {2->10, 3->11, 9->12}, height 4 (2 and 3 are siblings): first = 2, proof of [2,9], the claim [3,9]
+   WITHOUT entry 2 is accepted; the certified verifier refuses *)
+Definition w_s : htree := h_run 4 [(2, 10); (3, 11); (9, 12)]%Z.
+Theorem C10_range2_first_element_omitted_refuted :
+  let kvs := [(bk 4 3, HC 11); (bk 4 9, HC 12)] in
+  h_get w_s (bk 4 2) = Some (HC 10) /\
+  h_range2 w_s (bk 4 2) kvs (Some (h_range_proof2 w_s (bk 4 2) (bk 4 9))) = ROk false /\
+  h_range2_cert 4 w_s (bk 4 2) kvs (Some (h_range_proof2 w_s (bk 4 2) (bk 4 9))) = RErr.
+Proof. vm_compute. repeat split; reflexivity. Qed.
+
 (* legacy: root = binary node: hasRightElement never runs; the honest range [1,8] of {1,8,9} comes
    back with more = false although 9 follows (trie2: true) *)
 Definition w_m : htree := h_run 4 [(1, 10); (8, 11); (9, 12)]%Z.
